@@ -11,18 +11,25 @@ META = {
             "priorities contiguous from 0, no repeated (locality, priority), no repeated endpoint address, locality weights "
             "non-zero with per-priority sum <= 2^32-1, endpoint weights non-zero with per-locality sum <= 2^32-1, supported "
             "drop denominators; RDS: every route has exactly one path matcher, a known action, and a forwarding route has a "
-            "cluster specifier plugin or weighted clusters with non-zero weights and positive total <= 2^32-1; uint32 as base-65536 "
-            "pairs) and an abstract ClusterLoadAssignment with the documented validation rules. TLC enumerates one state per "
+            "cluster specifier plugin or weighted clusters with non-zero weights and positive total <= 2^32-1; LDS: exactly one of "
+            "APIListener / TCPListener with at least one HTTP connection manager, every effective HTTP filter list non-empty, "
+            "ending in its only terminal filter, without repeated names, exactly one route specifier; uint32 as base-65536 "
+            "pairs), an abstract ClusterLoadAssignment and an abstract Listener (api_listener or server listener with filter "
+            "chain / default chain; http_filters of <= 3 entries over router (terminal) / fault (client only) / rbac (server only) "
+            "/ unregistered type x is_optional x names incl. empty and repeated; route specifier rds / inline / missing / rds "
+            "without name) with the documented validation rules stated operationally. TLC enumerates one state per "
             "abstract EDS resource (0-3 localities with id / priority 0..3 / weight unset,0,1,2,2^32-1 and <= 2 endpoints over 3 "
             "addresses with weights unset,0,1,2,2^32-1; drop policies) and checks that the rules accept exactly the resources whose "
-            "prescribed summary satisfies the invariants (negative control: rules without the priority-gap check). Every "
-            "enumerated resource is built as a real proto and unmarshalled twice by unmarshalEndpointsResource; seeded structural "
+            "prescribed summary satisfies the invariants (negative controls: rules without the priority-gap check; filter-list "
+            "emptiness checked on the input instead of the effective list). Every enumerated resource is built as a real proto "
+            "and unmarshalled twice by unmarshalEndpointsResource / unmarshalListenerResource; seeded structural "
             "mutations (dropped fields, duplicated localities/endpoints, huge numbers) and byte mutations of them, seeded random "
-            "RouteConfigurations and their byte mutations, and byte mutations of several Cluster and Listener resources go through "
+            "RouteConfigurations and their byte mutations, and byte mutations of the generated Listeners and of several Cluster and "
+            "Listener base resources go through "
             "the real unmarshal functions; TLC validates totality (no panic, error xor update), determinism (second call gives the "
-            "same result) and, for EDS and RDS, the invariants on a logged summary of every accepted update.",
-    "note": "Covered with invariants: EDS (TLC-enumerated corpus + mutations), RDS (Go-generated structured corpus + mutations). CDS "
-            "and LDS: totality and determinism only, on byte mutations of 5 Cluster and 3 Listener base resources. 'Any bytes' is "
+            "same result) and, for EDS, RDS and LDS, the invariants on a logged summary of every accepted update.",
+    "note": "Covered with invariants: EDS and LDS (TLC-enumerated corpora + mutations), RDS (Go-generated structured corpus + "
+            "mutations). CDS: totality and determinism only, on byte mutations of 5 Cluster base resources. 'Any bytes' is "
             "sampled by seeded mutation, not enumerated; no coverage-guided fuzzing. Accept/reject predictions of the spec are drift "
             "only. Routes with an unsupported action are kept by the code marked RouteActionUnsupported (so that matching RPCs "
             "fail); the monitor accepts that marking as a 'known action'. Panic recovery "
